@@ -829,9 +829,138 @@ func c16ChainHTTP(c *Ctx, rule, list, wrapperName string) {
 		c.Run.Unknown(rule, list+"/http-handler", fpos(c, wrapper), "an HTTP handler method calls "+flow.ShortFunc(wrapper), "none")
 		return
 	}
+	// the look-ups may have been extracted into a helper of the handler: its results are read in the helper, once per
+	// return that may report success, with the helper's parameters replaced by the handler's arguments
+	variants := c16InlineLookups(hh, hsite)
+	if len(variants) > 1 || (len(variants) == 1 && variants[0] != nil) {
+		for vi, args := range variants {
+			vs := hsite
+			vs.Args = args
+			sfx := ""
+			if len(variants) > 1 {
+				sfx = fmt.Sprintf("#ret%d", vi+1)
+			}
+			c16ChainHTTPRoles(c, rule, list, wrapper, hh, vs, sfx)
+		}
+	} else {
+		c16ChainHTTPRoles(c, rule, list, wrapper, hh, hsite, "")
+	}
+	// the answer that is written is the wrapper's result
+	hk := list + "/" + flow.ShortFunc(hh)
+	for _, s := range flow.Calls(hh, flow.Named(c16Writer(c))) {
+		if len(s.Args) == 4 && flow.For(hh).PathCond(s.Instr.Block(), nil).Satisfiable() {
+			if s.Args[3].Equal(flow.For(hh).Term(hsite.Value())) {
+				c.Run.OK(rule, hk+"/answer-written", ipos(c, s.Instr), "the wrapper's answer is written to the response", "returnPayload(w, 200, ans)", true)
+				checkTerm(c, rule, hk+"/answer-status", ipos(c, s.Instr), "HTTP status of an answer", s.Args[2], flow.ConstInt(200))
+			}
+		}
+	}
+}
+
+// c16InlineLookups: if arguments of the wrapper call are results of one multi-result helper of the package (the
+// look-ups factored out of the handler), returns the argument terms once per return of the helper that may report
+// success, with every `result i of the helper` replaced by what that return yields for i, expressed over the handler's
+// own values. nil when there is no such helper or it is not a plain sequence of look-ups (it stores somewhere, its
+// results are not terms).
+func c16InlineLookups(hh *ssa.Function, hsite flow.Site) [][]*flow.Term {
+	e := flow.For(hh)
+	for _, b := range hh.Blocks {
+		for _, ins := range b.Instrs {
+			call, ok := ins.(*ssa.Call)
+			if !ok {
+				continue
+			}
+			H := call.Call.StaticCallee()
+			if H == nil || H.Blocks == nil || H.Pkg != hh.Pkg || call.Call.IsInvoke() || H.Signature.Results().Len() < 2 {
+				continue
+			}
+			T := e.Term(call)
+			used := false
+			for _, a := range hsite.Args {
+				if a.Has(func(t *flow.Term) bool { return t.Op == "extract" && len(t.Args) == 1 && t.Args[0].Equal(T) }) {
+					used = true
+				}
+			}
+			if !used {
+				continue
+			}
+			// the helper must be effect-free apart from the calls it makes
+			for _, hb := range H.Blocks {
+				for _, hi := range hb.Instrs {
+					switch x := hi.(type) {
+					case *ssa.Store:
+						if _, isAlloc := x.Addr.(*ssa.Alloc); !isAlloc {
+							if fa, isFA := x.Addr.(*ssa.FieldAddr); isFA {
+								if _, onAlloc := fa.X.(*ssa.Alloc); onAlloc {
+									continue
+								}
+							}
+							return nil
+						}
+					case *ssa.MapUpdate, *ssa.Send, *ssa.Go, *ssa.Defer, *ssa.Panic:
+						return nil
+					}
+				}
+			}
+			var hcall flow.Site
+			found := false
+			for _, s := range flow.Calls(hh, flow.Named(flow.FuncName(H))) {
+				if s.Instr == ssa.CallInstruction(call) {
+					hcall, found = s, true
+				}
+			}
+			if !found || len(hcall.Args) != len(H.Params) {
+				return nil
+			}
+			ce := flow.For(H)
+			nres := H.Signature.Results().Len()
+			var out [][]*flow.Term
+			for _, r := range flow.Returns(H) {
+				if len(r.Results) != nres || ssaNonNil(r.Results[nres-1], 0) || !mayReturnNil(ce, r, nres-1) {
+					continue // a return that reports failure (a non-nil error or failure object)
+				}
+				args := append([]*flow.Term(nil), hsite.Args...)
+				okv := true
+				for i := 0; i < nres; i++ {
+					rt := ce.Select(r.Results[i], nil, r)
+					if rt.IsUnknown() {
+						okv = false
+						break
+					}
+					for k := range hcall.Args {
+						rt = rt.Subst(flow.Param(k), &flow.Term{Op: "param", Val: fmt.Sprintf("__%d", k)})
+					}
+					for k, a := range hcall.Args {
+						arg := a
+						if arg.Op == "addr" && len(arg.Args) == 1 {
+							arg = arg.Args[0]
+						}
+						rt = rt.Subst(&flow.Term{Op: "param", Val: fmt.Sprintf("__%d", k)}, arg)
+					}
+					rt = flow.SelectRecFields(rt)
+					from := flow.Extract(T, i)
+					for j := range args {
+						args[j] = flow.SelectRecFields(args[j].Subst(from, rt))
+					}
+				}
+				if !okv {
+					return nil
+				}
+				out = append(out, args)
+			}
+			if len(out) == 0 {
+				return nil
+			}
+			return out
+		}
+	}
+	return [][]*flow.Term{nil}
+}
+
+func c16ChainHTTPRoles(c *Ctx, rule, list string, wrapper, hh *ssa.Function, hsite flow.Site, sfx string) {
 	role, why := c16SiteRoles(wrapper, hsite)
 	if why != "" {
-		c.Run.Unknown(rule, list+"/http-handler", ipos(c, hsite.Instr), "the wrapper's parameters name the request, the device keys and the AS / NS label and KEK (by type and name)", why)
+		c.Run.Unknown(rule, list+"/http-handler"+sfx, ipos(c, hsite.Instr), "the wrapper's parameters name the request, the device keys and the AS / NS label and KEK (by type and name)", why)
 		return
 	}
 	hk := list + "/" + flow.ShortFunc(hh)
@@ -840,31 +969,22 @@ func c16ChainHTTP(c *Ctx, rule, list, wrapperName string) {
 	cfg := func(f string, arg *flow.Term, i int) *flow.Term {
 		return flow.Extract(flow.Call("dyn", flow.Param(0, "config", f), arg), i)
 	}
-	checkTerm(c, rule, hk+"/deviceKeys", p, "device keys (looked up by the request's DevEUI)", role["dk"], cfg("GetDeviceKeysByDevEUIFunc", req.Field("DevEUI"), 0))
-	checkTerm(c, rule, hk+"/asKEKLabel", p, "AS KEK label (looked up by the request's DevEUI)", role["asLabel"], cfg("GetASKEKLabelByDevEUIFunc", req.Field("DevEUI"), 0))
+	checkTerm(c, rule, hk+"/deviceKeys"+sfx, p, "device keys (looked up by the request's DevEUI)", role["dk"], cfg("GetDeviceKeysByDevEUIFunc", req.Field("DevEUI"), 0))
+	checkTerm(c, rule, hk+"/asKEKLabel"+sfx, p, "AS KEK label (looked up by the request's DevEUI)", role["asLabel"], cfg("GetASKEKLabelByDevEUIFunc", req.Field("DevEUI"), 0))
 	// a KEK is compared with the lookup under the label that is sent; where the label itself comes out of a helper the
 	// rule does not read, the comparison has nothing to stand on
 	kek := func(k, what string, got, label *flow.Term) {
 		if h := unknownHelper(label, nil); h != "" || label.IsUnknown() {
-			c.Run.Unknown(rule, hk+"/"+k, p, what, "the label it must be looked up under goes through helper "+h+": "+short(label.String()))
+			c.Run.Unknown(rule, hk+"/"+k+sfx, p, what, "the label it must be looked up under goes through helper "+h+": "+short(label.String()))
 			return
 		}
-		checkTerm(c, rule, hk+"/"+k, p, what, got, cfg("GetKEKByLabelFunc", label, 0))
+		checkTerm(c, rule, hk+"/"+k+sfx, p, what, got, cfg("GetKEKByLabelFunc", label, 0))
 	}
 	kek("asKEK", "AS KEK (looked up under the AS label that is sent)", role["asKEK"], role["asLabel"])
-	checkTerm(c, rule, hk+"/nsKEKLabel", p, "NS KEK label (the request's SenderID)", role["nsLabel"], req.Field("BasePayload", "SenderID"))
+	checkTerm(c, rule, hk+"/nsKEKLabel"+sfx, p, "NS KEK label (the request's SenderID)", role["nsLabel"], req.Field("BasePayload", "SenderID"))
 	kek("nsKEK", "NS KEK (looked up under the NS label that is sent)", role["nsKEK"], role["nsLabel"])
 	if !(req.Op == "after" && req.Val == "encoding/json.Unmarshal") {
-		c.Run.Unknown(rule, hk+"/request", p, "the request payload decoded from the body", req.String())
-	}
-	// the answer that is written is the wrapper's result
-	for _, s := range flow.Calls(hh, flow.Named(c16Writer(c))) {
-		if len(s.Args) == 4 && flow.For(hh).PathCond(s.Instr.Block(), nil).Satisfiable() {
-			if s.Args[3].Equal(flow.For(hh).Term(hsite.Value())) {
-				c.Run.OK(rule, hk+"/answer-written", ipos(c, s.Instr), "the wrapper's answer is written to the response", "returnPayload(w, 200, ans)", true)
-				checkTerm(c, rule, hk+"/answer-status", ipos(c, s.Instr), "HTTP status of an answer", s.Args[2], flow.ConstInt(200))
-			}
-		}
+		c.Run.Unknown(rule, hk+"/request"+sfx, p, "the request payload decoded from the body", req.String())
 	}
 }
 
@@ -1473,4 +1593,25 @@ func c16Writer(c *Ctx) string {
 		return deflt
 	}
 	return found
+}
+
+// ssaNonNil: the value is an address or a freshly built object (never nil).
+func ssaNonNil(v ssa.Value, depth int) bool {
+	if depth > 3 {
+		return false
+	}
+	switch x := v.(type) {
+	case *ssa.Alloc, *ssa.MakeInterface, *ssa.FieldAddr, *ssa.IndexAddr, *ssa.MakeSlice, *ssa.MakeMap, *ssa.MakeClosure, *ssa.Function, *ssa.Global:
+		return true
+	case *ssa.ChangeType:
+		return ssaNonNil(x.X, depth+1)
+	case *ssa.Phi:
+		for _, e := range x.Edges {
+			if !ssaNonNil(e, depth+1) {
+				return false
+			}
+		}
+		return len(x.Edges) > 0
+	}
+	return false
 }
